@@ -193,9 +193,11 @@ func baseIntrinsics() map[string]intrinsic {
 		}
 		r := st.heapGet(p.obj).(*RegexObj)
 		s := args[1].(StrVal)
-		for _, b := range s.b {
-			if !st.decide(cmp("bvult", b, mkBV(8, 0x80))) {
-				panic(pathKill{"bound", "non-ASCII byte in regexp input"})
+		if r.consumesNonASCII() {
+			for _, b := range s.b {
+				if !st.decide(cmp("bvult", b, mkBV(8, 0x80))) {
+					panic(pathKill{"bound", "non-ASCII byte in regexp input (pattern can consume non-ASCII runes)"})
+				}
 			}
 		}
 		return r.matchTerm(s), true
@@ -242,7 +244,7 @@ func baseIntrinsics() map[string]intrinsic {
 	m["(*sync.Once).Do"] = nil
 	delete(m, "(*sync.Once).Do")
 
-	// engine helpers callable from models
+	unicodeIntrinsics(m)
 	return m
 }
 
@@ -283,6 +285,27 @@ func modelIntrinsic(name string) intrinsic {
 				panic(pathKill{"bound", "formatting a symbolic integer > 255"})
 			}
 			return concreteStr(fmt.Sprint(st.concretize(t, 0, 255))), true
+		}
+	case "verifx_basic": // func(a any) (kind int, s string, i int64): 1 string-kinded, 2 integer-kinded, 3 bool
+		return func(e *Engine, st *State, fr *Frame, args []Value, call *ssa.CallCommon) (Value, bool) {
+			iv := args[0].(IfaceVal)
+			none := TupleVal{mkBV(64, 0), StrVal{}, mkBV(64, 0)}
+			if iv.t == nil {
+				return none, true
+			}
+			switch v := iv.v.(type) {
+			case StrVal:
+				return TupleVal{mkBV(64, 1), v, mkBV(64, 0)}, true
+			case *Term:
+				if v.w == 0 {
+					return TupleVal{mkBV(64, 3), StrVal{}, mkIte(v, mkBV(64, 1), mkBV(64, 0))}, true
+				}
+				if isSigned(iv.t) {
+					return TupleVal{mkBV(64, 2), StrVal{}, mkSext(v, 64)}, true
+				}
+				return TupleVal{mkBV(64, 2), StrVal{}, mkZext(v, 64)}, true
+			}
+			return none, true
 		}
 	case "verifx_isSymbolic":
 		return func(e *Engine, st *State, fr *Frame, args []Value, call *ssa.CallCommon) (Value, bool) {
